@@ -207,6 +207,9 @@ def rules(ctx):
                 facts += compare_atoms(t, pol)
             nonempty = ('truthy', va) in facts or ('len(%s)' % va, '!=', '0') in facts or ('len(%s)' % va, '>', '0') in facts
             notone = ('len(%s)' % va, '!=', '1') in facts or ('len(%s)' % va, '>', '1') in facts or ('len(%s)' % va, '>=', '2') in facts
+            if not notone and isinstance(a, ast.Starred) and isinstance(a.value, ast.Name):
+                # `*rest, last = operands`; `if not rest: return ..`: the recursion sees a non-empty rest, i.e. two operands or more
+                notone = ('truthy', a.value.id) in facts or ('len(%s)' % a.value.id, '>', '0') in facts or ('len(%s)' % a.value.id, '>=', '1') in facts
             ctx.inst('R07.3', fn, 'base cases of %s' % name, nonempty and notone,
                      "empty and one-operand base cases return before the recursion" if nonempty and notone else
                      "recursion is reachable with %s operands: unbounded recursion" %
